@@ -72,6 +72,7 @@ PROPS = {
     "C26": dict(lanes=L(["rel", "dbg", "asan"], ["rel", "dbg", "asan", "miri"])),
     "C27": dict(lanes=L(["rel", "dbg"])),
     "C31": dict(lanes=L(["rel", "dbg"])),
+    "C33": dict(lanes=L(["op"])),
     "C34": dict(lanes=L(["rel", "dbg"])),
     "C13": dict(lanes=L(["rel", "dbg"])),
     "C32": dict(lanes=L(["rel", "dbg"])),
